@@ -26,17 +26,20 @@ import (
 // guest memory at that pointer), `fail` for the 0 pointer, `overlap` if the returned block overlaps
 // the input span, `panic` for a Go panic.
 
-// A 25-byte Wasm module: one memory of 64 pages, exported as "memory".  No code.
-var c10Wasm = []byte{
-	0x00, 0x61, 0x73, 0x6d, 0x01, 0x00, 0x00, 0x00, // \0asm, version 1
-	0x05, 0x03, 0x01, 0x00, 0x40, // memory section: 1 memory, no max, min 64 pages
-	0x07, 0x0a, 0x01, 0x06, 'm', 'e', 'm', 'o', 'r', 'y', 0x02, 0x00, // export "memory" = memory 0
+// A 25-byte Wasm module: one memory of `pages` pages (< 128), exported as "memory".  No code.
+func c10Wasm(pages byte) []byte {
+	return []byte{
+		0x00, 0x61, 0x73, 0x6d, 0x01, 0x00, 0x00, 0x00, // \0asm, version 1
+		0x05, 0x03, 0x01, 0x00, pages, // memory section: 1 memory, no max, min `pages` pages
+		0x07, 0x0a, 0x01, 0x06, 'm', 'e', 'm', 'o', 'r', 'y', 0x02, 0x00, // export "memory" = memory 0
+	}
 }
 
 var (
 	c10Once     sync.Once
 	c10Rt       wazero.Runtime
-	c10Compiled wazero.CompiledModule
+	c10Compiled wazero.CompiledModule // 2 pages: inputs up to 64 KiB
+	c10Big      wazero.CompiledModule // 64 pages
 	c10Err      error
 	c10Seq      int
 )
@@ -46,7 +49,10 @@ func c10Setup() {
 	logger.Patch(log.SetLevel(log.Critical))
 	ctx := context.Background()
 	c10Rt = wazero.NewRuntimeWithConfig(ctx, wazero.NewRuntimeConfigInterpreter())
-	c10Compiled, c10Err = c10Rt.CompileModule(ctx, c10Wasm)
+	c10Compiled, c10Err = c10Rt.CompileModule(ctx, c10Wasm(2))
+	if c10Err == nil {
+		c10Big, c10Err = c10Rt.CompileModule(ctx, c10Wasm(64))
+	}
 }
 
 const c10DataPtr = 64
@@ -67,7 +73,11 @@ func c10Run(line string) string {
 	}
 	bg := context.Background()
 	c10Seq++
-	mod, err := c10Rt.InstantiateModule(bg, c10Compiled, wazero.NewModuleConfig().WithName(fmt.Sprintf("c10-%d", c10Seq)))
+	compiled := c10Compiled
+	if len(data) > 60000 {
+		compiled = c10Big
+	}
+	mod, err := c10Rt.InstantiateModule(bg, compiled, wazero.NewModuleConfig().WithName(fmt.Sprintf("c10-%d", c10Seq)))
 	if err != nil {
 		return "err-wasm " + err.Error()
 	}
